@@ -526,6 +526,17 @@ func encodeGC(c *simkit.Choices, x *simkit.Ctx) *simkit.Violation {
 	sc := &Scenario{Mode: "encode", Format: string(f), Target: te.Name, Value: model.Render(val)}
 	if c.N(3) == 0 {
 		sc.UserFolders = 1 + c.N(model.NumFolderVariants-1)
+		if c.Bool() {
+			// a type the user folders apply to, in every position (value, pointer,
+			// element, field, behind an interface)
+			te = model.TypeByName([]string{"Inner", "Holder", "Nested", "Simple", "[]Simple", "Score", "[]Score", "Scored", "map[string]Score",
+				"PtrShaped", "HasPtrShaped", "[]*Inner", "*Simple"}[c.N(13)])
+			val = te.Gen(c)
+			if c.N(3) == 0 {
+				val = map[string]interface{}{"v": val} // held in an interface: not addressable
+			}
+			sc.Target, sc.Value = te.Name, model.Render(val)
+		}
 	}
 	fopts := model.FolderOpts(sc.UserFolders)
 	n := 0
@@ -534,6 +545,19 @@ func encodeGC(c *simkit.Choices, x *simkit.Ctx) *simkit.Violation {
 		cnt.NoRecord = true
 		var cerr error
 		if pi := simkit.Guard(func() { cerr = gotype.Fold(val, cnt, fopts...) }); pi != nil || cerr != nil {
+			if pi != nil && sc.UserFolders != 0 {
+				// a value that folds without user folders must not make the
+				// library crash on the way INTO a user folder (the function
+				// pointer / value pointer conversions of fold_user.go)
+				plain := simkit.NewTap(nil)
+				plain.NoRecord = true
+				var perr error
+				if ppi := simkit.Guard(func() { perr = gotype.Fold(val, plain) }); ppi == nil && perr == nil {
+					simkit.SetCurrent(sc)
+					return &simkit.Violation{Kind: "panic", Site: "encode/user-folder" + pi.Site,
+						Detail: "folding panics with user-defined folders registered (it folds without them): " + pi.Value + "\n" + pi.Stack, Scenario: sc}
+				}
+			}
 			return nil
 		}
 		n = cnt.Count
